@@ -36,6 +36,16 @@ func runGentest(args []string) int {
 			p := genOwnProgram(prng.Stream(seed, "heapsim", "gen", i), i)
 			jobs = append(jobs, fwproto.Job{ID: i, Tree: &simdisk.Tree{Files: p.Files}, Root: p.Root, Source: true})
 			texts = append(texts, string(p.Files[p.Root]))
+		case "alias":
+			as := genAliasSet(prng.Stream(seed, "c20", "aliasset", i))
+			jobs = append(jobs, fwproto.Job{ID: i, Tree: as.Tree, Root: as.Root, Source: true})
+			t := as.Desc + "\n"
+			for _, f := range as.Tree.SortedFiles() {
+				if f != "aus.ddp" {
+					t += "=== " + f + "\n" + string(as.Tree.Files[f]) + "\n"
+				}
+			}
+			texts = append(texts, t)
 		case "mod":
 			ms := genModuleSet(prng.Stream(seed, "gentest", "mod", i), genModOpts{})
 			jobs = append(jobs, fwproto.Job{ID: i, Tree: ms.Tree, Root: ms.Root, Source: true})
